@@ -475,6 +475,21 @@ impl Ctx {
     /// (debug assertions make the library several times slower)
     pub fn n(&self, quick: u64, thorough: u64) -> u64 {
         let v = self.pick(quick, thorough);
+        // Quick tiers are fixed work sized for roughly 20-40 s on this 16-core machine: the cheap properties
+        // get a multiple of the case counts their modules were first calibrated with (measured after the
+        // builders delivered: they then ran for 3-10 s only).
+        let boost: u64 = if self.quick() {
+            match self.prop.as_str() {
+                "C09" => 5,
+                "C14" => 6,
+                "C06" | "C17" | "C16" | "C02" => 3,
+                "C01" | "C10" | "C11" | "C13" | "C15" | "C19" => 2,
+                _ => 1,
+            }
+        } else {
+            1
+        };
+        let v = v.saturating_mul(boost).min(thorough.max(v));
         let v = match std::env::var("YQV_SCALE").ok().and_then(|s| s.parse::<f64>().ok()) {
             Some(f) => ((v as f64) * f).max(1.0) as u64,
             None => v,
